@@ -1,6 +1,7 @@
 package mon
 
 import (
+	"net/url"
 	"fmt"
 	"strings"
 
@@ -22,6 +23,14 @@ const kf2Key = "KF2-optional-only-pattern-ranked-with-other-group"
 func routeHandler(name string, vars []string) rux.HandlerFunc {
 	return func(c *rux.Context) {
 		rec := recOf(c)
+		if tgt := c.Req.Header.Get("X-Redispatch"); tgt != "" {
+			// internal redirect: the request is dispatched again for another path
+			c.Req.Header.Del("X-Redispatch")
+			c.Req.URL.Path = tgt
+			rec.Ev("redispatch-from(%s)", name)
+			c.Router().HandleContext(c)
+			return
+		}
 		rec.Route = name
 		rec.Params = copyParams(c.Params)
 		rec.ParamVia = map[string]string{}
@@ -80,6 +89,7 @@ func runRouting(e *Env, params bool) {
 		e.Require("params.dynamic_checked", 1000)
 		e.Require("params.cache_hit_checked", 50)
 		e.Require("params.optional_absent", 20)
+		e.Require("params.redispatch_to_varless_route", 100)
 	}
 }
 
@@ -94,19 +104,26 @@ func routingCase(t *T, params bool) {
 	if chance(r, 1, 2) {
 		capacity = pick(r, []int{1, 2, 3, 1000})
 	}
+	encoded := chance(r, 1, 5) // UseEncodedPath: ServeHTTP routes on URL.EscapedPath()
 	var probeLog []string
 	t.Describe(func() any {
-		return map[string]any{"routes": tb.Describe(), "cache_capacity": capacity, "failing_probes": probeLog}
+		return map[string]any{"routes": tb.Describe(), "cache_capacity": capacity, "UseEncodedPath": encoded, "failing_probes": probeLog}
 	})
 	var opts []func(*rux.Router)
 	if capacity >= 0 {
 		opts = append(opts, rux.CachingWithNum(uint16(capacity)))
+	}
+	if encoded {
+		opts = append(opts, rux.UseEncodedPath)
 	}
 	router := BuildRouter(tb, opts...)
 	t.AutoSample()
 
 	paths := tb.ProbePaths(r, 2, 5)
 	tableKey := fmt.Sprint(tb.Describe())
+	if params && !encoded {
+		defer redispatchProbes(t, tb, router, paths, &probeLog)
+	}
 
 	for _, probe := range paths {
 		path := probe.Path
@@ -196,6 +213,19 @@ func routingCase(t *T, params bool) {
 			if method != um || (mi > 2 && !chance(r, 1, 3)) {
 				continue
 			}
+			snpath := npath
+			if encoded {
+				// the dispatcher works on the escaped spelling of the URL path: so does the model
+				t.Count("probes.encoded_path", 1)
+				var ok bool
+				if snpath, ok = RefNormalize((&url.URL{Path: path}).EscapedPath(), false); !ok {
+					continue
+				}
+				want, _ = tb.Resolve(um, snpath, false)
+				if want < 0 && um == "HEAD" {
+					want, _ = tb.Resolve("GET", snpath, false)
+				}
+			}
 			rec, pv, panicked := Serve(router, NewReq(method, path))
 			if panicked {
 				probeLog = append(probeLog, fmt.Sprintf("ServeHTTP %s %q", method, path))
@@ -209,9 +239,9 @@ func routingCase(t *T, params bool) {
 			if !params {
 				t.Count("probes.via_servehttp", 1)
 				if got != want {
-					kfWant, _ := tb.Resolve(um, npath, true)
+					kfWant, _ := tb.Resolve(um, snpath, true)
 					if kfWant < 0 && um == "HEAD" {
-						kfWant, _ = tb.Resolve("GET", npath, true)
+						kfWant, _ = tb.Resolve("GET", snpath, true)
 					}
 					probeLog = append(probeLog, fmt.Sprintf("ServeHTTP %s %q want %s got %s", method, path, rname(tb, want), rname(tb, got)))
 					if got >= 0 && want >= 0 && got == kfWant {
@@ -224,7 +254,7 @@ func routingCase(t *T, params bool) {
 					t.Fail("servehttp-no-route-status", "ServeHTTP(%s %q): no route qualifies, expected the default 404, got status %d", method, path, rec.Status())
 				}
 			} else if got >= 0 {
-				checkParams(t, tb, got, method, path, npath, rec.Params, false, "ServeHTTP handler", &probeLog)
+				checkParams(t, tb, got, method, path, snpath, rec.Params, false, "ServeHTTP handler", &probeLog)
 				// c.Param(name) view
 				vs, _ := tb.Routes[got].Pat.Vars()
 				for _, v := range vs {
@@ -237,6 +267,65 @@ func routingCase(t *T, params bool) {
 				}
 			}
 		}
+	}
+}
+
+// redispatchProbes (C02): a request served by a dynamic route is dispatched again
+// (Router.HandleContext) for a path that belongs to another route; what the second
+// route's handler sees must be the parameters of ITS match, nothing of the first.
+func redispatchProbes(t *T, tb *Table, router *rux.Router, paths []Probe, probeLog *[]string) {
+	r := t.R
+	type hit struct {
+		path, npath string
+		route       int
+	}
+	var dyn, all []hit
+	for _, pb := range paths {
+		np, ok := RefNormalize(pb.Path, false)
+		if !ok {
+			continue
+		}
+		w, _ := tb.Resolve("GET", np, false)
+		if w < 0 {
+			continue
+		}
+		h := hit{pb.Path, np, w}
+		all = append(all, h)
+		if vs, _ := tb.Routes[w].Pat.Vars(); len(vs) > 0 {
+			dyn = append(dyn, h)
+		}
+	}
+	if len(dyn) == 0 || len(all) < 2 {
+		return
+	}
+	for k := 0; k < 4; k++ {
+		from, to := pick(r, dyn), pick(r, all)
+		if from.route == to.route && from.npath == to.npath {
+			continue
+		}
+		req := NewReq("GET", from.path)
+		req.Header.Set("X-Redispatch", to.path)
+		rec, pv, panicked := Serve(router, req)
+		if panicked {
+			t.Fail("redispatch-panic", "GET %q re-dispatched to %q panicked: %v", from.path, to.path, pv)
+			return
+		}
+		t.Count("params.redispatch_checked", 1)
+		t.Tracef("GET %q (route %s) re-dispatched through HandleContext to %q: handler of %s ran with params {%s}", from.path, rname(tb, from.route), to.path, rec.Route, fmtParams(rec.Params))
+		got := routeIndex(tb, rec.Route)
+		if got != to.route {
+			// which route runs is C01's business; params are only judged for the expected one
+			continue
+		}
+		if vs, _ := tb.Routes[got].Pat.Vars(); len(vs) == 0 {
+			t.Count("params.redispatch_to_varless_route", 1)
+			if len(rec.Params) != 0 {
+				*probeLog = append(*probeLog, fmt.Sprintf("GET %q re-dispatched to %q", from.path, to.path))
+				t.Fail("params-leak-across-redispatch", "GET %q (served by %s) re-dispatched to %q: %s declares no variable but its handler saw params {%s}", from.path, rdesc(tb, from.route), to.path, rdesc(tb, got), fmtParams(rec.Params))
+			}
+			continue
+		}
+		checkParams(t, tb, got, "GET", to.path, to.npath, rec.Params, false, "handler after re-dispatch from "+from.path, probeLog)
 	}
 }
 
